@@ -59,7 +59,9 @@ class C10(PoolCheck):
         return 4000 if tier == 'quick' else 300000
 
     def gen_case(self, rng, index):
-        key = rng.choice(self.keys)
+        # the xsitype family is the one whose validation mutates schema state: a third of the histories use it
+        xt = [k for k in self.keys if k.startswith('xsitype/')]
+        key = rng.choice(xt) if xt and rng.random() < 0.3 else rng.choice(self.keys)
         e = self.entries[key]
         m = histories.menu(e)
         n = rng.randrange(2, 13) if rng.random() < 0.7 else rng.randrange(2, 5)
